@@ -40,8 +40,10 @@ func c03Body(modes []sysMode, maxK int) func(x *X) {
 		if kind == cutServerClose && !mode.listen {
 			kind = cutLocalClose
 		}
-		s := newSys(mode, srvOpts{bufSize: 64}, cliOpts{bufSize: 64})
+		cliPipe := x.Choose(2) == 1
+		s := newSys(mode, srvOpts{bufSize: 64}, cliOpts{bufSize: 64, pipelining: cliPipe})
 		p := s.cl.p
+		s.cl.WriteFaults = 0 // any client write may fail (fault budget)
 		switch kind {
 		case cutAfterC2S:
 			p.cutAfter[0] = k
@@ -62,8 +64,14 @@ func c03Body(modes []sysMode, maxK int) func(x *X) {
 			st, stErr = s.conn.NewStream("StreamSvc.Push")
 			stDone = true
 			if stErr == nil {
+				// a stream write (it may fail: fault alternative) before the reader blocks
+				m := streamMsg(0x31, 0)
+				st.WriteMessage(&m)
 				var b []byte
 				rdErr = st.ReadMessage(nil, &b)
+				if rdErr == nil {
+					rdErr = st.ReadMessage(nil, &b)
+				}
 				rdDone = true
 			}
 		})
@@ -85,7 +93,7 @@ func c03Body(modes []sysMode, maxK int) func(x *X) {
 		label := cutNames[kind]
 		out := fmt.Sprintf("%s %s k=%d ended=%v", mode.name, label, k, ended)
 		okErr := func(err error) bool {
-			return err == rpc.ErrShutdown || err == io.EOF || err == errBrokenPipe || (err == errReadIO && kind == cutReset)
+			return err == rpc.ErrShutdown || err == io.EOF || err == errBrokenPipe || err == errInjectedWrite || (err == errReadIO && kind == cutReset)
 		}
 		for _, c := range []*ucall{gated, plain, ping} {
 			switch {
@@ -98,7 +106,9 @@ func c03Body(modes []sysMode, maxK int) func(x *X) {
 				}
 				out += fmt.Sprintf(" %d:ok", c.tag)
 			default:
-				if !ended {
+				if !ended && c.err == errInjectedWrite {
+					// the injected write failure of this very call
+				} else if !ended {
 					x.Fail("C03/error-without-loss", "call %d failed with %v although the connection was never cut", c.tag, c.err)
 				} else if !okErr(c.err) {
 					x.Fail("C03/unexpected-error/"+label, "call %d failed with %q; want ErrShutdown (or the error of its own failed write)", c.tag, c.err.Error())
@@ -111,7 +121,8 @@ func c03Body(modes []sysMode, maxK int) func(x *X) {
 		} else if stErr == nil {
 			if ended && !rdDone {
 				x.Fail("C03/stream-reader-hangs/"+label, "a ReadMessage blocked on a stream is still blocked after the connection ended (%s, k=%d)", label, k)
-			} else if rdDone && rdErr != rpc.ErrStreamShutdown {
+			} else if rdDone && rdErr != rpc.ErrStreamShutdown && rdErr != rpc.ErrShutdown {
+				// (a message that was received just before the loss may be delivered together with ErrShutdown)
 				x.Fail("C03/stream-reader-error", "the blocked stream ReadMessage returned %v", rdErr)
 			}
 		}
@@ -129,6 +140,8 @@ func c03Body(modes []sysMode, maxK int) func(x *X) {
 		case !ended && endedNow && late.err != nil && !okErr(late.err):
 			// the cut hit this very call
 			x.Fail("C03/unexpected-error/"+label, "the call during which the link was cut failed with %q", late.err.Error())
+		case late.err == errInjectedWrite:
+			// the injected write failure of this very call
 		case !endedNow && (late.err != nil || !eqBytes(late.reply, late.want())):
 			x.Fail("C03/late-call-failed-without-loss", "connection intact but a later call returned %v", late.err)
 		case late.err == nil && !eqBytes(late.reply, late.want()):
@@ -141,6 +154,8 @@ func c03Body(modes []sysMode, maxK int) func(x *X) {
 }
 
 func init() {
-	register(&Scenario{Prop: "C03", Name: "c03/cuts-servecodec", Quick: []Bound{{1, 0}, {2, 0}}, Thorough: []Bound{{3, 0}}, Body: c03Body(sysModes[:1], 5)})
-	register(&Scenario{Prop: "C03", Name: "c03/cuts-listen-poll", Quick: []Bound{{0, 0}, {1, 0}}, Thorough: []Bound{{2, 0}, {3, 0}}, Body: c03Body(sysModes[1:], 5)})
+	register(&Scenario{Prop: "C03", Name: "c03/cuts-servecodec", Quick: []Bound{{1, 1}, {2, 0}}, Thorough: []Bound{{3, 0}}, Body: c03Body(sysModes[:1], 5)})
+	register(&Scenario{Prop: "C03", Name: "c03/cuts-listen-poll", Quick: []Bound{{0, 1}, {1, 0}}, Thorough: []Bound{{2, 0}, {3, 0}}, Body: c03Body(sysModes[1:], 5)})
 }
+
+var _ = fmt.Sprint
